@@ -38,6 +38,15 @@ def confirm(patch, demo):
             res["doc_tests_pass_with_patch"] = "0 failed" in out and "ok" in out
             rc, out = sh("cargo test --offline --test seed_demo 2>&1 | tail -15", cwd=wt)
             res["demo_with_patch_fails"] = "test result: FAILED" in out or "panicked" in out or "error: test failed" in out
+            if not res["demo_with_patch_fails"]:
+                # a demonstration of undefined behaviour may only fail under Miri
+                rc, out = sh("cargo +nightly miri test --offline --test seed_demo 2>&1 | tail -25", cwd=wt, timeout=3600)
+                if "Undefined Behavior" in out or "test result: FAILED" in out or "error: test failed" in out:
+                    sh("git apply -R %s" % os.path.abspath(patch), cwd=wt)
+                    rc, out2 = sh("cargo +nightly miri test --offline --test seed_demo 2>&1 | tail -8", cwd=wt, timeout=3600)
+                    res["demo_fails_only_under_miri"] = True
+                    res["miri_demo_without_patch_passes"] = "test result: ok" in out2
+                    res["demo_with_patch_fails"] = res["miri_demo_without_patch_passes"]
     finally:
         sh("git -C /repo worktree remove --force %s" % wt)
     print(json.dumps(res, indent=1))
